@@ -317,7 +317,11 @@ void genC04(uint64_t seed, int tier, Scenario& sc) {
             maxDepth = 4;
         }
         pushSend(sc, gp.positionCmd);
-        pushSend(sc, "go depth " + std::to_string(r.range(1, maxDepth)));
+        {
+            // (thorough tier) very deep searches carry a node cap: a drawn 4-man root at depth 13 can exceed the node budget
+            long long d = r.range(1, maxDepth);
+            pushSend(sc, "go depth " + std::to_string(d) + (d >= 9 ? " nodes 500000" : ""));
+        }
         sc.ops.push_back("wait_bestmove");
         if (r.chance(0.15)) pushSend(sc, "ucinewgame");
     }
